@@ -93,3 +93,31 @@ func Seen() map[string]int64 {
 	seen.Range(func(k, v any) bool { m[k.(string)] = v.(*atomic.Int64).Load(); return true })
 	return m
 }
+
+// Creator returns the id of the goroutine that created the calling goroutine (0 if unknown), parsed from
+// the "created by ... in goroutine N" trailer of the stack trace.
+func Creator() int64 {
+	buf := make([]byte, 1<<14)
+	n := runtime.Stack(buf, false)
+	s := buf[:n]
+	const key = " in goroutine "
+	idx := -1
+	for i := len(s) - len(key); i >= 0; i-- {
+		if string(s[i:i+len(key)]) == key {
+			idx = i + len(key)
+			break
+		}
+	}
+	if idx < 0 {
+		return 0
+	}
+	var id int64
+	for i := idx; i < len(s); i++ {
+		c := s[i]
+		if c < '0' || c > '9' {
+			break
+		}
+		id = id*10 + int64(c-'0')
+	}
+	return id
+}
